@@ -52,14 +52,9 @@ SetBlk(sbs, bid, bc) ==
     IF bid = 0 THEN sbs
     ELSE [sbs EXCEPT ![Len(sbs)].blk[bid] = [s \in 1..4 |-> IF @[s] = 0 THEN bc[s] ELSE MaxI(@[s], bc[s])]]
 
-RECURSIVE Build(_)
-Build(i) ==
-    LET prev == IF i = 0 THEN [sbs |-> << >>, sbc |-> Zero4, bc |-> Zero4, occ |-> Zero4,
-                               smp |-> [s \in 1..4 |-> << >>]]
-                ELSE Build(i - 1)
-        \* the symbol at position i-1 was consumed at the end of the previous iteration
-        st0 == prev
-        sbs1 == IF i % SBS = 0 THEN Append(st0.sbs, NewSb(st0.sbc)) ELSE st0.sbs
+\* one iteration of the loop `for i in 0..qv.len() + 1`
+BuildStep(st0, i) ==
+    LET sbs1 == IF i % SBS = 0 THEN Append(st0.sbs, NewSb(st0.sbc)) ELSE st0.sbs
         bc1 == IF i % SBS = 0 THEN Zero4 ELSE st0.bc
         sbs2 == IF i % BS = 0 THEN SetBlk(sbs1, (i \div BS) % BPS, bc1) ELSE sbs1
     IN  IF i < N
@@ -68,6 +63,12 @@ Build(i) ==
                   smp |-> IF st0.occ[s + 1] % SAMPLE = 0
                           THEN [st0.smp EXCEPT ![s + 1] = Append(@, i \div SBS)] ELSE st0.smp]
         ELSE [sbs |-> sbs2, sbc |-> st0.sbc, bc |-> bc1, occ |-> st0.occ, smp |-> st0.smp]
+
+\* the whole loop, i = 0 .. n (a left fold, so that long inputs need no deep recursion)
+Build(n) ==
+    SX!FoldLeft(BuildStep,
+                [sbs |-> << >>, sbc |-> Zero4, bc |-> Zero4, occ |-> Zero4, smp |-> [s \in 1..4 |-> << >>]],
+                [i \in 1..(n + 1) |-> i - 1])
 
 Support ==
     LET b == Build(N)
